@@ -132,6 +132,11 @@ class MAUPITIConv2d(nn.Conv2d, MAUPITIModule):
             raise NotImplementedError("Same padding is not supported yet")
         if self.padding == 'valid':
             self.pad = nn.ConstantPad2d(0, 0)
+        elif self.padding_mode != 'zeros':
+            # reflect / replicate / circular padding: pad with values of the input itself
+            pads = (self.padding[1], self.padding[1], self.padding[0], self.padding[0])
+            mode = self.padding_mode
+            self.pad = lambda x: F.pad(x, pads, mode=mode)
         else:
             # (left, right, top, bottom): the two spatial axes may be padded differently
             self.pad = nn.ConstantPad2d((self.padding[1], self.padding[1],
